@@ -35,6 +35,12 @@ CLAIMED = {
          "call-graph reachability + loop-body classification + taint over SSA def-use + path-sensitive join analysis + field coverage"),
  "C08": ("structural part only: operations are sorted by tree key before every tree commit, synthetic borders are removed on every exit, subtree workers are joined before merge, the tree object and its node cache never outlive a block and are dropped wholesale after workers wrote behind them",
          "loop-body classification + path-sensitive pairing/join analysis + who-may-write"),
+ "C17": ("transport discipline (all clauses but byte-stream equality): nonce advanced after every Seal/Open with the right direction's state and nowhere else; an authenticated connection is produced only after every handshake step succeeded; what is signed and verified is this session's HKDF challenge and the recorded identity is the key that verified it; frame length bounded before slicing; only the handshake makes encrypted connections",
+         "path-sensitive pairing/must-pass-through (SSA) + operand provenance + who-may-call/write"),
+ "C18": ("multiplexer structure: every packet of a data message is queued under the stream mutex; the reassembly buffer has one reader; the size cap dominates the append and errors close the connection; every topic has a stream and a send arm; packets carry the topic of the stream they are queued on and Eof marks the last chunk",
+         "lockset on the path engine + who-may-access + table agreement of topics vs select arms + provenance"),
+ "C19": ("injectivity scaffolding only: sign-bytes field coverage for transaction, certificate and the three consensus-message forms (known finding F5), identity keys are full marshallings, key-prefix tables pairwise distinct, composite keys only through the length-prefix joiner, critical-decoder lists agree and raw decoders are confined; panic/hang freedom NOT covered",
+         "field coverage on typed AST + table agreement + provenance of key builders + who-may-call on raw decoders"),
 }
 
 NOT_APPLICABLE = {
